@@ -128,6 +128,17 @@ Theorem C08_format_seq_independent : forall l k f ops, nth_error l k = Some (f, 
 Proof. exact format_seq_independent. Qed.
 Print Assumptions C08_format_seq_independent.
 
+(* the formatter object is a value: copying / moving / relocating it between two groups of arguments
+   changes nothing (the target formats as if all arguments had been given to one object) *)
+Theorem C08_reloc_chain_value : forall fmt pre post, reloc_chain fmt pre post = format_chain fmt (pre ++ post).
+Proof. exact reloc_chain_value. Qed.
+Print Assumptions C08_reloc_chain_value.
+
+Theorem C08_reloc_chain_spec : forall fmt pre post,
+  reloc_chain fmt pre post = spec_format fmt (map render (flatten_ops (pre ++ post))).
+Proof. exact reloc_chain_spec. Qed.
+Print Assumptions C08_reloc_chain_spec.
+
 (* operator<< to the caller's stream is all or nothing: when str() raises (wrong number of arguments) the
    stream is exactly as it was — nothing appended, a pending width still pending *)
 Theorem C08_stream_out_raise_unchanged : forall o f e, str_of f = Raise e -> stream_out o f = (o, Some e).
